@@ -373,6 +373,9 @@ func suiteUpdateCLI(env *Env, res *Result) {
 				// C12: the operand stored by a successful update is not generate's output
 				res.addFailure(Failure{Kind: "C12", Shape: "stored_operand_differs_from_generated", Input: input,
 					Detail: fmt.Sprintf("generate prints %q; the file has %q", clip(o.gen.Stdout, 200), clip(diffAround(o.after, want), 300))})
+				// C02: what stands between the quotes of the SecRule line is not the expression that was generated
+				res.addFailure(Failure{Kind: "C02", Shape: "c02_operand_between_the_quotes_is_not_the_generated_regex", Input: input,
+					Detail: fmt.Sprintf("generate prints %q; the file has %q", clip(o.gen.Stdout, 200), clip(diffAround(o.after, want), 300))})
 			}
 			continue
 		}
